@@ -62,6 +62,8 @@ class EOFRotator(EOF):
         rtol: float = 1e-8,
         compute: bool = True,
     ):
+        if not isinstance(n_modes, int):
+            raise TypeError("n_modes must be an integer")
         if max_iter is None:
             max_iter = 1000 if compute else 100
 
